@@ -105,7 +105,8 @@ def part_kernel(rep, thorough, rng):
     cart = sorted(KS.CART)
     hexg = sorted(KS.HEX)
     if thorough:
-        cfgs = [("c07_ik", ik_cfg(cart + hexg, "NSt", [0, 1, 2], [1, 2], False, True))]
+        cfgs = [("c07_ik", ik_cfg(cart + hexg, "NSt", [0, 1, 2], [1, 2], False, True)),
+                ("c07_ik_big", ik_cfg(["C4v", "mFe", "T23", "Oh"], "NSb", [0, 1, 2], [1], False, False))]
     else:
         cfgs = [("c07_ik", ik_cfg(["C1", "T", "C2v", "C4v", "mC4v", "mFe", "Oh", "H6v", "H3T", "mH6v"], "NSq", [0, 1, 2], [1], False, True))]
     spec_groups = {}
@@ -124,13 +125,15 @@ def part_kernel(rep, thorough, rng):
         if real != spec_groups[g]:
             raise MachineryError(f"catalogue mismatch for group {g}: {sorted(real ^ spec_groups[g])[:3]}")
     keys = sorted(runs)
-    if not thorough and len(keys) > 70:
+    cap = 500 if thorough else 70
+    if len(keys) > cap:
         # keep every group and every grid, sample the factorisations
         rng.shuffle(keys)
         seen = set()
         first = [k for k in keys if (k[0], k[1]) not in seen and not seen.add((k[0], k[1]))]
-        rest = [k for k in keys if k not in set(first)]
-        keys = sorted(first + rest[:max(0, 70 - len(first))])
+        fs = set(first)
+        rest = [k for k in keys if k not in fs]
+        keys = sorted(first + rest[:max(0, cap - len(first))])
     nstates = nnonzero = nreduced = 0
     worst = 0.0
     for key in keys:
@@ -458,6 +461,7 @@ def check(pid, tier):
     rep = Report(pid, tier, "model_checking")
     thorough = tier == "thorough"
     rng = random.Random(seed() * 7919 + 7)
+    os.environ.setdefault("JAVA_TOOL_OPTIONS", "-Xss64m")      # TLC worker threads evaluate deep (non-tail) recursions of the sort/fold operators
     workdir("c07_run")
     workdir("c07_num")
     rep.rule("a case = one finished TLC state (group, dense grid, factorisation, rank, parities, source field) replayed through a pair of real "
